@@ -862,3 +862,44 @@ def run(ctx, rep):
     handler_tables(F, rep)
     returns(F, rep)
     interpreter_loop(F, rep)
+    children_code_is_not_edited(F, rep)
+
+
+
+_SHRINK = re.compile(r"alloc::vec::Vec::<[^>]*>::(pop|pop_if|truncate|remove|swap_remove|drain|retain|retain_mut|clear|split_off|dedup\w*|set_len|splice)$"
+                     r"|<impl \[T\]>::(swap|reverse|sort\w*|rotate_\w+|fill\w*)$")
+# one line of reason per exception
+_EDIT_ALLOWED = {
+    "Function::in_place_compile_for_value": "takes the single make_function instruction out of the two-item code of a function literal (`remove(0)` of its own output)",
+}
+
+
+def children_code_is_not_edited(F, rep):
+    """The generators above are evaluated with their children as opaque words: every offset is a sum of child lengths, and every child ends with
+    the operand stack as its own statements left it.  That is only the emitted code if a generator composes its children's code by
+    concatenation: no function of the compiler removes, reorders or overwrites items of a Vec<CompiledItem> (who-may-call rule over the
+    resolved callees, exceptions listed with a reason)."""
+    rule = P + ".no-edit"
+    n = 0
+    bad = []
+    for f in F.crates["compiler"].fns:
+        for c in f.calls():
+            n += 1
+            if not _SHRINK.search(c.callee()):
+                continue
+            ga = c.t["func"].get("ga") or []
+            if not ga or "CompiledItem" not in str(ga[0]):
+                continue
+            owner = mir.short(re.sub(r"::\{closure#\d+\}", "", f.path))
+            if owner in _EDIT_ALLOWED:
+                rep.ob(rule, "%s calls %s on compiled code" % (owner, mir.short(mir.strip_generics(c.callee()))), "exempt", _EDIT_ALLOWED[owner], c.span, fn=f.path,
+                       key="%s|%s|%s" % (rule, owner, c.callee().rsplit("::", 1)[-1]))
+                continue
+            bad.append((owner, c))
+    for owner, c in bad:
+        rep.ob(rule, "%s edits compiled code with %s" % (owner, mir.short(mir.strip_generics(c.callee()))), "violated",
+               "the offsets and the operand-stack shape of the surrounding construct are computed for the child's code as it was compiled", c.span,
+               fn=c.fn.path if hasattr(c, "fn") else None, key="%s|%s|%s" % (rule, owner, c.callee().rsplit("::", 1)[-1]))
+    if not bad:
+        rep.ob(rule, "no generator removes, reorders or overwrites items of compiled code", "ok", "%d call sites inspected" % n, None, key=rule + "|summary")
+    rep.floor(rule + " call sites of the compiler inspected", n, 10000)
